@@ -70,7 +70,9 @@ ASSUME AsFound_MarkerTestedOnRawLine \in BOOLEAN /\ MaxLines \in Nat
 
 WellFormed(f) == f.kind \in OneEq
 (* a line that defines the time axis ('t(0) = ..' does not) *)
-IsUserT(f) == f.kind \in (OneEq \ {"ic"}) /\ f.v = "t"
+(* the code also takes a definition of 't_minus_1' as "the user gives the time axis"   *)
+IsUserT(f) == f.kind \in (OneEq \ {"ic"}) /\ f.v \in {"t", "t_minus_1"}
+DefinesT(f) == f.kind \in (OneEq \ {"ic"}) /\ f.v = "t"
 
 (* the same line without its trailing comment; a comment-only line becomes a blank one; *)
 (* the section marker is not a comment in the sense of the property                     *)
@@ -206,7 +208,7 @@ MsgsOf(h, n) == IF n = 0 THEN << >>
                 ELSE MsgsOf(h, n - 1)
 
 HasUserT(h) == \E i \in 1..Len(h) : IsUserT(h[i])
-NumUserT(h) == Cardinality({ i \in 1..Len(h) : IsUserT(h[i]) })
+NumDefT(h) == Cardinality({ i \in 1..Len(h) : DefinesT(h[i]) })      \* lines that define t itself
 
 VarsOf(s) == [i \in 1..Len(s) |-> s[i].var]
 Range(s) == { s[i] : i \in 1..Len(s) }
@@ -242,7 +244,8 @@ C14_TimeSupplied ==
     done => /\ ~HasUserT(hist) => /\ Len(Endogenous) > 0
                                   /\ Endogenous[Len(Endogenous)] = DefaultT
                                   /\ TCount = 1
-            /\ HasUserT(hist) => TCount = NumUserT(hist)
+            \* nothing is added to what the user wrote (whatever class the user's t is in)
+            /\ HasUserT(hist) => TCount = NumDefT(hist)
 
 (* a malformed line adds one message and nothing else *)
 C14_MalformedReported ==
